@@ -1,6 +1,7 @@
 package main
 
 import (
+	"go/token"
 	"fmt"
 	"sort"
 	"strings"
@@ -310,12 +311,7 @@ func c13r1(r *R) {
 			o2.Check(c.Expr(callOf(cs[0]).Args[1]) == "assert[*http2."+ft+"](p1)#0", "%s gets %s", pn, c.Expr(callOf(cs[0]).Args[1]))
 			// its result is what processFrame returns
 			if v, ok := cs[0].(ssa.Value); ok {
-				ret := false
-				for _, rf := range *v.Referrers() {
-					if _, isR := rf.(*ssa.Return); isR {
-						ret = true
-					}
-				}
+				ret := flowsToReturn(v)
 				o2.Check(ret, "the result of %s is not returned by processFrame (its error would be lost)", pn)
 			}
 		}
@@ -632,4 +628,40 @@ func init() {
 		forkTablesRule(r, "C13.R9")
 	}})
 	wantRefs("C13")
+}
+
+// flowsToReturn: the value is what some return of its function returns — directly, through phis (a result picked in a
+// branch and returned at a common exit), or through a local result cell (`res = f(); …; return res`).
+func flowsToReturn(v ssa.Value) bool {
+	seen := map[ssa.Value]bool{}
+	work := []ssa.Value{v}
+	for len(work) > 0 {
+		x := work[len(work)-1]
+		work = work[:len(work)-1]
+		if seen[x] || x.Referrers() == nil {
+			continue
+		}
+		seen[x] = true
+		for _, rf := range *x.Referrers() {
+			switch y := rf.(type) {
+			case *ssa.Return:
+				return true
+			case *ssa.Phi:
+				work = append(work, y)
+			case *ssa.ChangeInterface:
+				work = append(work, y)
+			case *ssa.MakeInterface:
+				work = append(work, y)
+			case *ssa.Store:
+				if al, ok := y.Addr.(*ssa.Alloc); ok && y.Val == x && al.Referrers() != nil {
+					for _, r2 := range *al.Referrers() {
+						if ld, ok := r2.(*ssa.UnOp); ok && ld.Op == token.MUL {
+							work = append(work, ld)
+						}
+					}
+				}
+			}
+		}
+	}
+	return false
 }
